@@ -199,7 +199,7 @@ def structural(mod, si, endian, maxlen):
     return n, bad
 
 
-BUDGET_S = {"quick": 45, "thorough": 900}
+BUDGET_S = {"quick": 45, "thorough": 120}
 _TIER = ["quick"]
 
 
@@ -384,7 +384,7 @@ def coverage(agg, tier):
         "stubs": symx.STUBS,
         "rule": "state = one path of disassembler.__call__ over symbolic bytes; obligation = pc => (tried specs = matching specs of the flat list, in its order) / first-match / no pending prefix; traces validated = solver models replayed through the real disassembler with the real hooks and compared with a linear ispec.decode scan",
         "bounds": {"inputs": "all byte strings of each listed length: thorough {0,1,2,3,4,maxlen,maxlen+2}, quick {1,min(3,maxlen),maxlen,maxlen+2}; every importable cpu module and decode mode (ARM/Thumb x LE/BE fetch); quick takes 1/3 of the large ISAs' configurations (x86, x64, tricore, armv7, ppc32) by seed",
-                   "paths": "<= 6000 (len<=4) / 20000 paths and <= 45 s (quick) / 900 s (thorough) per configuration; configurations that hit the cap are listed in notes and counted in incomplete_explorations",
+                   "paths": "<= 6000 (len<=4) / 20000 paths and <= 45 s (quick) / 120 s (thorough) per configuration; configurations that hit the cap are listed in notes and counted in incomplete_explorations",
                    "outside": "hook and precondition behaviour; more than one accepted prefix per call chain in accept mode"},
         "exhaustive": False,
     }
